@@ -124,6 +124,9 @@ class UncertainArray(np.ndarray):
         return obj
 
     def __array_finalize__(self, obj):
+        # also reached with obj=None when an array is unpickled
+        self._broadcasted_shape = None
+        self._label = None
         if obj is None:
             return
 
